@@ -24,7 +24,7 @@ EPS = ["readFile", "readFileCb", "readDirs", "readDirsCb", "readDirsHistory", "r
 
 
 def gen_world(rng, i, tier):
-    w = gen.gen_layered_world(rng, i, small=True, allow_refuse=False)
+    w = gen.gen_layered_world(rng, i, small=True, allow_refuse=False, allow_dotdot=True)
     if rng.chance(0.12):
         gen.single_file_world(rng, w)
     read = w["read"]
@@ -51,6 +51,8 @@ def gen_world(rng, i, tier):
     if "symlink" in w["rules"]:
         cons = set(consulted_of(w))
         for n in w["nodes"]:
+            if n["p"] == "$ROOT/cur":
+                continue          # the directory link through which a dotdot world is reached (never a consulted file)
             if n["t"] == "l" and (norm(n["p"]) in cons or n.get("to") != "/dev/null"):
                 n["t"] = "f"
                 n["entries"] = []
@@ -225,6 +227,13 @@ def check(world, plans, results):
         if first is None:
             if r1["rc"] != b_rc or (b_rc == 0 and view(tagged(plan, res, "dump1")) != b_dump):
                 v.fail("conforming", "plan %s: all files satisfy the active rules %r but the restricted read returns rc=%r (unrestricted: %r) or different content" % (label, world["rules"], r1["rc"], b_rc))
+            elif model is not None and label == "clean" and not world["ep"].startswith("readDirsHistory"):
+                # "read as usual": the files that were CHECKED are the files whose content is returned (layered-lookup model;
+                # the known finding D7 of C01 is not this property's business and is dropped here)
+                from . import c01 as _c01m
+                kn = len(v.known)
+                _c01m.compare_with_model(v, world, r1["rc"], tagged(plan, res, "dump1"), res, None, oracle_prefix="as-usual")
+                del v.known[kn:]
         else:
             p, active = first
             if r1["rc"] not in [CODE[r] for r in active]:
